@@ -52,6 +52,12 @@ def P4 (answers : Nat → Ret) (quit : Option Nat := none) : Prog :=
       else if scr = 1 ∧ cb = .show then { acts := [.closeDirect] }
       else {} }
 
+/-- the `setup` of screen 0 pushes screen 1 and succeeds: screen 0 is refreshed although it is no
+longer on top (and then not drawn) -/
+def P8 : Prog :=
+  { cc := asciiClass, width := 10, screens := [quiet, quiet],
+    screenScript := fun scr cb n => if scr = 0 ∧ cb = .setup ∧ n = 0 then { acts := [.push 1 none] } else {} }
+
 /-- the `input()` of the only screen raises an ordinary exception -/
 def P9 : Prog :=
   { cc := asciiClass, width := 40, screens := [{ noSeparator := true }],
